@@ -2,6 +2,7 @@
 
 use crate::engine::PropertyDef;
 
+pub mod c01;
 pub mod c02;
 pub mod c03;
 pub mod c04;
@@ -20,5 +21,5 @@ pub mod c17;
 pub mod c18;
 
 pub fn all() -> Vec<PropertyDef> {
-    vec![c02::def(), c03::def(), c04::def(), c05::def(), c06::def(), c07::def(), c08::def(), c10::def(), c11::def(), c12::def(), c13::def(), c14::def(), c15::def(), c16::def(), c17::def(), c18::def()]
+    vec![c01::def(), c02::def(), c03::def(), c04::def(), c05::def(), c06::def(), c07::def(), c08::def(), c10::def(), c11::def(), c12::def(), c13::def(), c14::def(), c15::def(), c16::def(), c17::def(), c18::def()]
 }
